@@ -16,6 +16,7 @@ mod procs;
 mod profiles;
 mod rec;
 mod sched;
+mod strict;
 mod workload;
 
 use std::{
@@ -134,6 +135,7 @@ fn main() {
         "workload" => workload::workload(&a),
         "golden" => golden::golden(&a),
         "btree-run" => btree::btree_run(&a),
+        "strict-probe" => strict::strict_probe(&a),
         "procs-worker" => procs::worker(&a),
         "procs-run" => procs::run(&a),
         "sched-run" => sched::sched_run(&a),
